@@ -195,13 +195,18 @@ impl Ctx {
                     None => return err(format!("opaque: unbound ciphertext {}", id)),
                 };
                 // the bound item is the 4-element array [ciphertext, nonce, tag, aad]
-                if tag_of(&t[1]) == "nodigest" {
+                if tag_of(&t[1]) == "nodigest" || tag_of(&t[1]) == "baddigest" {
                     if b[0] != 0x84 {
                         return err("encmsg: unexpected container");
                     }
-                    b[0] = 0x83;
                     let n = b.len();
                     b.truncate(n - 38); // aad = bytes(36) holding #6.40001(h'32 bytes')
+                    if tag_of(&t[1]) == "nodigest" {
+                        b[0] = 0x83;
+                    } else {
+                        // additional data present, but not a tagged digest
+                        b.extend_from_slice(&w::bytes(&w::text("not a digest")));
+                    }
                 }
                 if t[6].as_u64().unwrap_or(0) > 0 {
                     b[0] += 1;
@@ -216,10 +221,15 @@ impl Ctx {
                     return err("opaque: corrupted compressed payload");
                 }
                 let plain = self.wire(&t[2])?;
-                let dg = if tag_of(&t[1]) == "nodigest" { None } else { Some(bc_components::Digest::from_data(self.digest(&t[1])?)) };
+                let bad = tag_of(&t[1]) == "baddigest";
+                let dg = if tag_of(&t[1]) == "nodigest" || bad { None } else { Some(bc_components::Digest::from_data(self.digest(&t[1])?)) };
                 let c = bc_components::Compressed::from_uncompressed_data(plain, dg);
                 use dcbor::prelude::*;
                 let mut b = c.untagged_cbor().to_cbor_data();
+                if bad {
+                    b[0] += 1;
+                    b.extend_from_slice(&w::text("not a digest"));
+                }
                 if t[4].as_u64().unwrap_or(0) > 0 {
                     b[0] += 1;
                     b.extend_from_slice(&w::bytes(&[1, 2, 3]));
